@@ -654,6 +654,41 @@ class Spaces:
             return "NR"
         return None
 
+    def count(self, t):
+        """the space whose number of rows an extent expression is: X.shape[0] / len(X) of a typed array or index vector"""
+        t = self.P.norm(t)
+        d = self.dim(t)
+        if d:
+            return d
+        X = None
+        if t[0] == "idx" and t[2] == ("c", 0) and t[1][0] == "attr" and t[1][2] == "shape":
+            X = t[1][1]
+        elif t[0] == "call" and t[1] == "len" and len(t[2]) == 1:
+            X = t[2][0]
+        elif t[0] == "attr" and t[2] == "size":
+            X = t[1]
+            it = self.itype(X)
+            return it[1] if it else None
+        if X is None:
+            return None
+        keep = list(self.bad), list(self.checked)
+        r = self.typ(X)
+        self.bad, self.checked = keep
+        if r and r[0]:
+            return r[0]
+        it = self.itype(X)
+        return it[1] if it else None
+
+    def head(self, n, sp):
+        """rows selected by the prefix slice [:n] of an axis living in space sp, n = number of rows of space `n`"""
+        if sp is None:
+            return None
+        if self.same(n, sp):
+            return sp                   # the whole axis
+        if sp == "N" and n == "RB":
+            return "RB"                 # rigid-body modes come first by definition
+        return f"the leading |{n}| rows of {sp}"
+
     def dimT(self, t):
         t = self.P.norm(t)
         if t[0] == "idx" and t[2] == ("c", 1) and t[1][0] == "attr" and t[1][2] == "shape" and \
@@ -678,6 +713,10 @@ class Spaces:
                 return ("NR", "NR")
             if i[1] == NONE and i[2] == NONE:
                 return ("*", "*")
+            if i[1] in (NONE, ("c", 0)):
+                n = self.count(i[2])
+                if n in ("N", "NR", "EL", "RF", "RB"):
+                    return ("^", n)     # a prefix of whatever axis it is applied to, as long as space n has rows
             return None
         if _rf_root(i) == ("s", self.rfm):
             return ("N", "RF")
@@ -753,6 +792,10 @@ class Spaces:
                     continue
                 sp = base[bi] if bi < 2 else None
                 it = self.itype(a_)
+                if it is not None and it[0] == "^":
+                    out.append(self.head(it[1], sp) if sp != "T" else None)
+                    bi += 1
+                    continue
                 if it is not None and sp is not None and it[0] != "*":
                     txt = show(P.norm(("idx", t[1], t[2])))
                     if not self.same(it[0], sp) and sp != "T":
@@ -838,6 +881,11 @@ class Spaces:
         txt = f"{show(P.norm(e.target))}[{show(P.norm(ix))}]"
         if it is None or it[0] == "*":
             return
+        if it[0] == "^":
+            h = self.head(it[1], tt[0])
+            if h is None or h == tt[0]:
+                return
+            it = (tt[0], h)
         if tt[0] and not self.same(it[0], tt[0]):
             self.bad.append(("index-space", f"`{txt}`: axis 0 of `{show(P.norm(e.target))}` lives in space {tt[0]} but the index holds positions relative to space {it[0]}", self.node))
             return
